@@ -91,7 +91,7 @@ def main():
             continue
         out['runs'] += 1
         out['steps'] += res['steps']
-        if res.get('fatal'):
+        if res.get('fatal') and not res['violations']:
             out['errors'].append({'seed': seed, 'profile': profile, 'trace': 'fatal: ' + res['fatal']})
         for k, v in res['stats'].items():
             out['stats'][k] += v
